@@ -20,7 +20,16 @@ Streams (all on generated formulas):
           near-miss names (accepted) go through the full db stream;
   fdtool  tools.derivatives.findiff_g / findiff_h / check_derivatives and BIOGEME.check_derivatives at points
           with special coordinates (exactly 0, +-1, inside (-1,1), large): evaluation points and quotients
-          against the Lean model (FinDiff), and the self-check must confirm derivatives that are true.
+          against the Lean model (FinDiff), and the self-check must confirm derivatives that are true;
+  shared  (round 3) several formulas under ONE numbering: IdManager([e1, e2]) handed to both formulas, or BIOGEME built from
+          a dict of formulas; parameters foreign to the evaluated formula that sort before / between / after its own ones
+          (entries must be exactly 0 and every other entry must stay with its name); positional and named, aggregated
+          and per observation, prepare_ids False and True (own numbering, shared manager restored), tuple unpacking of the
+          outputs (once), create_function, create_objective_function (_f, _f_g, _f_g_h at two points),
+          BIOGEME.calculate_likelihood_and_derivatives scaled and unscaled, likelihood_finite_difference_hessian;
+          outputs of two successive calls on one object must not alias (every entry point).  Lean side: IdM.prepare over the
+          declarations of ALL formulas + Diff on the evaluated one + DerivOut.getValueAndDerivatives / myFunction /
+          objF / objFG / objFGH / Proxy.iters, compared slot by slot INCLUDING the keys and their order.
 """
 
 from __future__ import annotations
@@ -46,15 +55,27 @@ MANIFEST = dict(
     'affine functions and converges to the derivative (C02.findiff_g_affine, findiff_g_tendsto, findiff_h_tendsto), and its reported '
     'discrepancy vanishes with the step where the gradient is true (C02.check_derivatives_confirms). Tie: differential correspondence with '
     'the real engine derivatives (per observation, aggregated, named, with and without a database, every flag combination), with '
-    'IdManager.prepare and with findiff_g/findiff_h/check_derivatives on recorded function values; finite-difference oracle on the reported function.',
+    'IdManager.prepare and with findiff_g/findiff_h/check_derivatives on recorded function values; finite-difference oracle on the reported function. '
+    'Round 3 (Model/DerivOut.lean): convert_to_dict / expressions_names_indices / Named*Output modelled - the entry read under a name is the derivative w.r.t. that name '
+    '(C02.named_lookup, named_hess_lookup, named_matrix_lookup, convert_to_dict_refuses), also when other formulas contributed parameters to the id manager, whose entries '
+    'are zero (C02.named_entry_shared, foreign_parameter_zero); calculate_function_and_derivatives packaging incl. [0] selection and unique_entry (C02.package_slots); tuple '
+    'unpacking yields f, g, h, bhhh once (C02.unpack_once); create_objective_function _f/_f_g/_f_g_h report one function at the positional point and the gradient entry k '
+    'is its derivative along coordinate k (C02.objective_reports_same_function, objective_gradient_correct: HasDerivAt); successive calls allocate their outputs '
+    '(C02.outputs_do_not_alias). Tie: stream shared (several formulas under one IdManager / BIOGEME dict of formulas, foreign parameters, every output form and entry point, '
+    'successive calls) against DerivOut + Diff + IdM.prepare, keys and key order included.',
     design='DESIGN.md §5 C02',
     technique='Lean 4/Mathlib HasDerivAt proof of a symbolic differentiator + differential correspondence with the engine automatic differentiation',
     note='Partial: the engine\'s hand-written derivative code (cythonbiogeme) is validated against the model, not verified; Float rounding by '
-    'tolerance (1e-8 gradient, 1e-6 Hessian relative); derivatives of Integrate are outside the modelled fragment (engine defect F-E3 is a listed known finding).',
+    'tolerance (1e-8 gradient, 1e-6 Hessian relative); derivatives of Integrate are outside the modelled fragment (engine defect F-E3 is a listed known finding). '
+    'Round 3: the allocation of the output arrays (no aliasing) is a model of np.empty-per-call, tied by the successive-calls oracle only; create_objective_function is modelled '
+    'for formulas whose row-wise expansion is the same on every row (others: oracle only); Function.dimension() of create_objective_function raises AttributeError '
+    '(self.idmanager is None) - outside the property, reported to the lead.',
 )
-TRUSTED = ['engine automatic differentiation (cythonbiogeme): validated, not verified', 'Float vs real numbers: tolerances 1e-8 (gradient) / 1e-6 (Hessian)']
+TRUSTED = ['engine automatic differentiation (cythonbiogeme): validated, not verified', 'Float vs real numbers: tolerances 1e-8 (gradient) / 1e-6 (Hessian)',
+           'biogeme_optimization.FunctionToMinimize (f / f_g / f_g_h dispatch to _f / _f_g / _f_g_h with a cache per point): used as is']
 ASSUMPTIONS = ['selectors (Elem keys, ConditionalSum conditions, logit choice/availability) do not depend on free parameters']
-RULE = ('streams db / nodb / clash / fdtool; differentiable DAGs over {+,-,*,/,neg,exp,log,power-constant,bioMultSum,bioLinearUtility,LogLogit,Elem,ConditionalSum} with 1-4 parameters '
+RULE = ('streams db / nodb / clash / fdtool / shared (two formulas under one id manager, 1-3 foreign parameters, contexts IdManager and BIOGEME dict of formulas; non-trivial = >= 3 names '
+        'in the shared list and >= 1 foreign to the evaluated formula); differentiable DAGs over {+,-,*,/,neg,exp,log,power-constant,bioMultSum,bioLinearUtility,LogLogit,Elem,ConditionalSum} with 1-4 parameters '
         '(free and fixed, names whose appearance order differs from the sorted order), 1-4 rows; non-trivial = >= 2 free parameters and depth >= 3')
 SMOOTH = ['plus', 'minus', 'times', 'divide', 'neg', 'exp', 'log', 'powConst', 'multSum', 'linUtil', 'logLogit', 'elem', 'condSum']
 TOL_G = 1e-8
@@ -1192,6 +1213,486 @@ def fdtool_check(ctx, res, case, x, with_biogeme=False, logg=False):
             res.violate(f'BIOGEME.check_derivatives fails on a differentiable formula: {core.exc_kind(e)}: {e}'[:300], small, str(e)[:200], 'f, g, h, gdiff, hdiff', where='BIOGEME.check_derivatives')
 
 
+
+# ============================================================================ stream shared: one numbering, several formulas
+# The entry "i-th name of the library's reported list" is checked where the list is NOT the formula's own list: several
+# formulas under one IdManager (IdManager([e1, e2]) handed to both, or BIOGEME built from a dict of formulas), with
+# parameters that are foreign to the evaluated formula and sort before / between / after its own ones.  Every way the
+# derivatives leave the library is exercised on it: positional and named, aggregated and per observation, tuple
+# unpacking, create_function, create_objective_function (_f, _f_g, _f_g_h), BIOGEME.calculate_likelihood_and_derivatives
+# (scaled and not), likelihood_finite_difference_hessian; two successive calls on one object must not alias.
+
+FOREIGN_NAMES = ['0a', 'A_first', 'AA_SCALE', 'a0', 'b1', 'b11', 'b3', 'asc_1', 'asc_91', 'Beta0', 'Z0', 'Z2', 'zzz', 'B_COST', 'alpha0', 'zeta2', 'B_TIME_2', 'a_', 'b']
+SMOOTH_SAMEROWS = ['plus', 'minus', 'times', 'divide', 'neg', 'exp', 'log', 'powConst', 'multSum', 'linUtil']
+
+
+def gen_shared(rng):
+    """formula A (generated) + formula B over the same table with parameters foreign to A (and one of A's own)"""
+    A = gen_smooth(rng, min_free=rng.choice([1, 2, 2]), kinds=SMOOTH_SAMEROWS if rng.random() < 0.4 else None)
+    nodes = [dict(n) for n in A['nodes']]
+    used = {n['name'] for n in nodes if n['k'] == 'beta'}
+    own_free = sorted({n['name'] for n in nodes if n['k'] == 'beta' and not n.get('fixed')})
+    cands = [c for c in FOREIGN_NAMES if c not in used and c not in A['columns']]
+    before = [c for c in cands if c < own_free[-1]]
+    k = rng.randint(1, 3)
+    foreign = rng.sample(cands, k)
+    if before and not any(c < own_free[-1] for c in foreign) and rng.random() < 0.85:
+        foreign[0] = rng.choice(before)
+
+    def add(node):
+        nodes.append(node)
+        return len(nodes) - 1
+
+    numcols = [c for c in A['columns'] if c in ('x1', 'x2', 'y10', 'y9')]
+    var_of = {n['name']: i for i, n in enumerate(nodes) if n['k'] == 'var'}
+    terms = []
+    for j, nm in enumerate(foreign):
+        b = add({'k': 'beta', 'name': nm, 'v': G._dy(rng, -1.5, 1.5), 'fixed': (j == k - 1 and k >= 2 and rng.random() < 0.3)})
+        col = rng.choice(numcols)
+        v = var_of[col] if col in var_of else add({'k': 'var', 'name': col})
+        var_of[col] = v
+        terms.append(add({'k': 'times', 'c': [b, v]}))
+    # one of A's own free parameters also appears in B (same Beta object), half of the time
+    if rng.random() < 0.5:
+        own_idx = [i for i, n in enumerate(A['nodes']) if n['k'] == 'beta' and not n.get('fixed')]
+        terms.append(add({'k': 'times', 'c': [rng.choice(own_idx), terms[0]]}))
+    acc = terms[0]
+    for t in terms[1:]:
+        acc = add({'k': 'plus', 'c': [acc, t]})
+    if rng.random() < 0.6:
+        q = add({'k': 'num', 'v': 0.25, 'raw': False})
+        acc = add({'k': 'exp', 'c': [add({'k': 'times', 'c': [q, acc]})]})
+    case = {'nodes': nodes, 'roots': [A['roots'][0], acc], 'columns': list(A['columns']), 'rows': [list(r) for r in A['rows']], 'dict': {}}
+    # a point by NAME for every free parameter (dyadic), regular for both formulas
+    for _ in range(20):
+        pt = {n['name']: G._dy(rng, -1.5, 1.5) for n in nodes if n['k'] == 'beta' and not n.get('fixed')}
+        case['dict'] = pt
+        try:
+            bv = G.beta_values(case)
+            vals = [G.oracle(case, r, bv, row) for row in G.rows_of(case) for r in case['roots']]
+            if all(math.isfinite(v) and abs(v) < 1e6 for v in vals):
+                return case
+        except (G.Reject, OverflowError, ValueError, ZeroDivisionError):
+            continue
+    case['dict'] = dict(A.get('dict', {}))
+    return case
+
+
+def own_free_names(case, root):
+    seen, stack, out = set(), [root], set()
+    while stack:
+        k = stack.pop()
+        if k in seen:
+            continue
+        seen.add(k)
+        n = case['nodes'][k]
+        if n['k'] == 'beta' and not n.get('fixed'):
+            out.add(n['name'])
+        stack.extend(n.get('c', []))
+    return out
+
+
+def _plain(out, per_obs):
+    """positional output as nested lists (None slots kept)"""
+    return canon_output(out, False, None, per_obs)
+
+
+def _named_struct(out, per_obs):
+    """named output as (key lists, nested lists in the order of the keys of the library's dicts)"""
+    def vec(g):
+        return None if g is None else [[k, float(v)] for k, v in g.items()]
+
+    def mat(h):
+        return None if h is None else [[a, [[b, float(v)] for b, v in r.items()]] for a, r in h.items()]
+
+    if per_obs:
+        return {'f': [float(v) for v in out.functions], 'g': None if out.gradients is None else [vec(g) for g in out.gradients],
+                'h': None if out.hessians is None else [mat(h) for h in out.hessians], 'b': None if out.bhhhs is None else [mat(h) for h in out.bhhhs]}
+    return {'f': float(out.function), 'g': vec(out.gradient), 'h': mat(out.hessian), 'b': mat(out.bhhh)}
+
+
+def _model_struct(ans):
+    """the same structure from the JSON of the Lean model (Driver/C02 `jResult`)"""
+    if 'error' in ans:
+        return {'error': ans['error']}
+
+    def walk(x):
+        if x is None:
+            return None
+        if isinstance(x, list):
+            return [walk(v) for v in x]
+        if isinstance(x, int):
+            return b2f(x)
+        return x
+
+    return {'kind': ans['kind'], 'f': walk(ans['f']), 'g': walk(ans['g']), 'h': walk(ans['h']), 'b': walk(ans['b'])}
+
+
+def struct_close(a, b, tol):
+    """nested lists with strings (compared exactly) and floats (tolerance)"""
+    if a is None or b is None:
+        return a is None and b is None
+    if isinstance(a, str) or isinstance(b, str):
+        return a == b
+    if isinstance(a, (list, tuple)):
+        return isinstance(b, (list, tuple)) and len(a) == len(b) and all(struct_close(x, y, tol) for x, y in zip(a, b))
+    return core.close(a, b, rel=tol, abs_=tol)
+
+
+def alias_probe(res, small, label, call, x1, x2, snap):
+    """two successive calls on one object: the first output, inspected after the second call, is what it was"""
+    o1 = call(x1)
+    s1 = snap(o1)
+    o2 = call(x2)
+    s1b = snap(o1)
+    if repr(s1) != repr(s1b):
+        res.violate(f'{label}: the output of a call changes when the same object is called again at another point (outputs of successive calls share their arrays)',
+                    {**small, 'entry': label, 'x1': list(x1), 'x2': list(x2)}, s1b, s1, where='successive calls: aliased outputs')
+    return o1, o2
+
+
+SHARED_MODES = [(fl, agg, named) for fl in FLAG_COMBOS for agg in (True, False) for named in (False, True)] + [((False, True, False), True, False), ((False, False, True), False, True)]
+
+
+@confirmed
+def shared_check(ctx, res, case, context, target, n_modes=4, fd=True):
+    import biogeme.biogeme as bio
+    from biogeme.expressions.idmanager import IdManager
+
+    root_k = case['roots'][target]
+    small = {'nodes': case['nodes'], 'root': root_k, 'roots': case['roots'], 'columns': case['columns'], 'rows': case['rows'], 'dict': case.get('dict', {}),
+             'stream': 'shared', 'context': context, 'target': target}
+    WN = 'named outputs: name -> index mapping'
+    sub = {**case, 'roots': [root_k]}
+    W, WH = where_of(sub)
+    objs = G.build(case)
+    eA, eB = objs[case['roots'][0]], objs[case['roots'][1]]
+    e = objs[root_k]
+    db = G.database(case)
+    all_free = sorted({n['name'] for n in case['nodes'] if n['k'] == 'beta' and not n.get('fixed')})
+    own = own_free_names(case, root_k)
+    foreign = [nm for nm in all_free if nm not in own]
+    res.count(small, nontrivial=len(all_free) >= 3 and bool(foreign))
+    res.tally(f'shared:{context}:formula {"A" if target == 0 else "B"}')
+    res.tally('shared: a foreign name sorts before an own name' if any(f < o for f in foreign for o in own) else 'shared: no foreign name before an own name')
+    B = None
+    try:
+        if context == 'IdManager':
+            idm = IdManager([eA, eB], db, 0)
+            eA.set_id_manager(idm)
+            eB.set_id_manager(idm)
+        else:
+            with core.scratch():
+                B = bio.BIOGEME(db, {'log_like': eA, 'other': eB})
+                B.modelName = 'c02'
+            idm = B.id_manager
+        names = list(idm.free_betas.names)
+    except Exception as ex:  # noqa: BLE001
+        res.violate(f'formulas cannot share an id manager ({context}): {core.exc_kind(ex)}: {ex}'[:300], small, str(ex)[:200], 'an id manager', where='IdManager.prepare')
+        return
+    if names != all_free:
+        res.violate('the reported list of free parameters is not the sorted list of the free parameters of the formulas that share the numbering', small, names, all_free,
+                    where='IdManager.prepare')
+        return
+    n = len(names)
+    pt = {nm: float(case['dict'].get(nm, G.beta_values(case)[nm])) for nm in names}
+    x = [pt[nm] for nm in names]
+    x2 = [v + 0.375 * (1 if i % 2 == 0 else -1) for i, v in enumerate(x)]
+
+    def gvd(point, g=True, h=True, b=True, agg=True, named=False):
+        return e.get_value_and_derivatives(betas=dict(zip(names, point)), database=db, gradient=g, hessian=h, bhhh=b, aggregation=agg, prepare_ids=False, named_results=named)
+
+    try:
+        ref = _plain(gvd(x), False)
+        refd = _plain(gvd(x, agg=False), True)
+    except Exception as ex:  # noqa: BLE001
+        res.violate(f'derivatives of a differentiable formula that shares its id manager cannot be computed: {core.exc_kind(ex)}: {ex}'[:300], small, str(ex)[:200],
+                    'f, g, H, BHHH', where='get_value_and_derivatives')
+        return
+    if len(ref['g']) != n or len(ref['h']) != n or any(len(g) != n for g in refd['g']):
+        res.violate('the gradient / Hessian do not have one entry per name of the reported list', small, [len(ref['g']), len(ref['h'])], n, where=W)
+        return
+    # ---- entry k <-> k-th reported name, by finite differences BY NAME of the reported value
+    for nm in foreign:
+        k = names.index(nm)
+        if ref['g'][k] != 0.0 or any(v != 0.0 for v in ref['h'][k]) or any(r[k] != 0.0 for r in ref['h']) or any(g[k] != 0.0 for g in refd['g']):
+            res.violate(f'the entry of {nm} (entry {k} of the reported list), a parameter that does not occur in the formula, is not zero', small,
+                        {'g': ref['g'], 'h_row': ref['h'][k]}, 0.0, where=W)
+            break
+    if fd:
+        def feval(p, grad):
+            o = gvd(p, g=grad, h=False, b=False)
+            return (float(o.function), [float(v) for v in o.gradient]) if grad else float(o.function)
+
+        report_fd(res, safe_fd(res, small, 'get_value_and_derivatives', feval, names, x, ref['g'], ref['h']), small, W, WH, prefix='(shared id manager) ')
+    if not mat_close(ref['h'], [list(r) for r in zip(*ref['h'])], 1e-9):
+        res.violate('Hessian is not symmetric', small, ref['h'], 'symmetric', where=WH)
+    sums = {'f': math.fsum(refd['f']), 'g': [math.fsum(g[k] for g in refd['g']) for k in range(n)],
+            'h': [[math.fsum(h[i][j] for h in refd['h']) for j in range(n)] for i in range(n)],
+            'b': [[math.fsum(g[i] * g[j] for g in refd['g']) for j in range(n)] for i in range(n)]}
+    for slot, tol, w in (('f', 1e-10, W), ('g', 1e-9, W), ('h', 1e-8, WH), ('b', 1e-8, W)):
+        if not slot_close(ref[slot], sums[slot], tol):
+            res.violate(f'aggregated slot {slot} is not the sum over the observations' + (' of the outer products of the gradients' if slot == 'b' else ''), small, ref[slot], sums[slot], where=w)
+    # ---- named outputs: the entry under a name is the entry at the position of that name in the reported list
+    exp_a = {'f': ref['f'], 'g': [[nm, ref['g'][k]] for k, nm in enumerate(names)],
+             'h': [[a, [[b, ref['h'][i][j]] for j, b in enumerate(names)]] for i, a in enumerate(names)],
+             'b': [[a, [[b, ref['b'][i][j]] for j, b in enumerate(names)]] for i, a in enumerate(names)]}
+    try:
+        na = _named_struct(gvd(x, named=True), False)
+        nd = _named_struct(gvd(x, agg=False, named=True), True)
+        exp_a2 = {'f': ref['f'], 'g': [[nm, ref['g'][k]] for k, nm in enumerate(names)],
+                 'h': [[a, [[b, ref['h'][i][j]] for j, b in enumerate(names)]] for i, a in enumerate(names)],
+                 'b': [[a, [[b, ref['b'][i][j]] for j, b in enumerate(names)]] for i, a in enumerate(names)]}
+        exp_d = {'f': refd['f'], 'g': [[[nm, g[k]] for k, nm in enumerate(names)] for g in refd['g']],
+                 'h': [[[a, [[b, h[i][j]] for j, b in enumerate(names)]] for i, a in enumerate(names)] for h in refd['h']],
+                 'b': [[[a, [[b, h[i][j]] for j, b in enumerate(names)]] for i, a in enumerate(names)] for h in refd['b']]}
+        for lab, got, exp, wh in (('aggregated', na, exp_a, 'function_output.NamedFunctionOutput'), ('per-observation', nd, exp_d, 'function_output.NamedBiogemeDisaggregateFunctionOutput')):
+            for slot in ('f', 'g', 'h', 'b'):
+                if not struct_close(got[slot], exp[slot], 1e-12):
+                    res.violate(f'{lab} named {slot}: the entry reported under a name is not the entry of that name in the reported list ({context}, shared numbering)', small,
+                                got[slot], exp[slot], where=wh)
+                    break
+    except Exception as ex:  # noqa: BLE001
+        res.violate(f'named results of a formula that shares its id manager cannot be computed: {core.exc_kind(ex)}: {ex}'[:300], small, str(ex)[:200], 'named f, g, H, BHHH', where=WN)
+    # ---- tuple unpacking of the positional outputs
+    for agg in (True, False):
+        try:
+            o = gvd(x, agg=agg)
+            f_, g_, h_, b_ = o
+            attrs = (o.function, o.gradient, o.hessian, o.bhhh) if agg else (o.functions, o.gradients, o.hessians, o.bhhhs)
+            same = all(a is b for a, b in zip((f_, g_, h_, b_), attrs))
+            try:
+                _ = tuple(o)
+                second = 'ok'
+            except TypeError:
+                second = 'TypeError'
+            if not same:
+                res.violate('unpacking an output does not yield its value, gradient, Hessian and BHHH in that order', {**small, 'aggregation': agg},
+                            [float(np.sum(v)) for v in (f_, g_, h_, b_)], 'f, g, h, bhhh', where='function_output.SmartOutputProxy')
+            res.tally('unpack:second ' + second)
+
+            def cbu(ans, second=second):
+                if ans['later'] != ['TypeError'] or second != 'TypeError':
+                    res.diverge('second unpacking of one output (Proxy.iters vs real)', small, ans['later'], second, where='function_output.SmartOutputProxy')
+
+            ctx.batch.add({'op': 'unpack', 'n': 1}, cbu)
+        except Exception as ex:  # noqa: BLE001
+            res.violate(f'a positional output cannot be unpacked into f, g, h, bhhh: {core.exc_kind(ex)}: {ex}'[:300], {**small, 'aggregation': agg}, str(ex)[:200], 'f, g, h, bhhh',
+                        where='function_output.SmartOutputProxy')
+    # ---- create_function / create_objective_function on the shared manager; successive calls
+    obj_out = None
+    try:
+        fn = e.create_function(database=db, gradient=True, hessian=True, bhhh=True)
+        o1, _o2 = alias_probe(res, small, 'create_function', lambda p: fn(np.array(p, dtype=float)), x, x2, lambda o: _named_struct(o, False))
+        cf = _named_struct(o1, False)
+        for slot in ('f', 'g', 'h', 'b'):
+            if not struct_close(cf[slot], exp_a[slot], 1e-12):
+                res.violate(f'create_function (shared numbering): slot {slot} differs from get_value_and_derivatives at the same point', small, cf[slot], exp_a[slot], where='create_function')
+                break
+        try:
+            fn(np.array(x + [0.5]))
+            wrong = 'accepted'
+        except Exception as ex:  # noqa: BLE001
+            wrong = core.exc_kind(ex)
+        obj = e.create_objective_function(database=db)
+        got = {}
+        for lab, p in (('x', x), ('x2', x2)):
+            obj.set_variables(np.array(p, dtype=float))
+            f0 = float(obj.f())
+            fg = obj.f_g()
+            fgh = obj.f_g_h()
+            got[lab] = {'f': f0, 'fg': {'f': float(fg.function), 'g': [float(v) for v in fg.gradient], 'h': None if fg.hessian is None else 'present'},
+                        'fgh': {'f': float(fgh.function), 'g': [float(v) for v in fgh.gradient], 'h': [[float(v) for v in r] for r in fgh.hessian]}}
+            if lab == 'x':
+                held = (fg, fgh, {'g': [float(v) for v in fg.gradient], 'h': [[float(v) for v in r] for r in fgh.hessian]})
+        fg, fgh, snap0 = held
+        if {'g': [float(v) for v in fg.gradient], 'h': [[float(v) for v in r] for r in fgh.hessian]} != snap0:
+            res.violate('create_objective_function: the output of a call changes when the function is evaluated at another point', small, 'changed', snap0, where='successive calls: aliased outputs')
+        obj_out = got['x']
+        exp_o = {'f': ref['f'], 'fg': {'f': ref['f'], 'g': ref['g'], 'h': None}, 'fgh': {'f': ref['f'], 'g': ref['g'], 'h': ref['h']}}
+        if not (core.close(obj_out['f'], ref['f'], rel=1e-12) and struct_close(obj_out['fg']['g'], ref['g'], 1e-12) and obj_out['fg']['h'] is None
+                and core.close(obj_out['fg']['f'], ref['f'], rel=1e-12) and core.close(obj_out['fgh']['f'], ref['f'], rel=1e-12)
+                and struct_close(obj_out['fgh']['g'], ref['g'], 1e-12) and struct_close(obj_out['fgh']['h'], ref['h'], 1e-12)):
+            res.violate('create_objective_function: _f / _f_g / _f_g_h do not report the value, gradient and Hessian of the formula at the positional point', small, obj_out, exp_o,
+                        where='create_objective_function')
+        r2 = _plain(gvd(x2), False)
+        if not (core.close(got['x2']['f'], r2['f'], rel=1e-12) and struct_close(got['x2']['fgh']['g'], r2['g'], 1e-12) and struct_close(got['x2']['fgh']['h'], r2['h'], 1e-12)):
+            res.violate('create_objective_function at a second point: not the value, gradient and Hessian of the formula at that point', {**small, 'x2': x2}, got['x2'], r2,
+                        where='create_objective_function')
+    except Exception as ex:  # noqa: BLE001
+        res.violate(f'create_function / create_objective_function fail on a formula that shares its id manager: {core.exc_kind(ex)}: {ex}'[:300], small, str(ex)[:200], 'f, g, H',
+                    where='create_function')
+        wrong = None
+    # ---- prepare_ids=True on a formula that holds the shared manager: the evaluation numbers the formula's OWN parameters
+    # (the reported list is then the sorted own names), and the shared manager is back afterwards
+    try:
+        own_names = sorted(own)
+        op = _plain(e.get_value_and_derivatives(betas=pt, database=db, aggregation=True, prepare_ids=True), False)
+        on = _named_struct(e.get_value_and_derivatives(betas=pt, database=db, aggregation=True, prepare_ids=True, named_results=True), False)
+        idx = [names.index(nm) for nm in own_names]
+        exp_p = {'f': ref['f'], 'g': [ref['g'][i] for i in idx], 'h': [[ref['h'][i][j] for j in idx] for i in idx], 'b': [[ref['b'][i][j] for j in idx] for i in idx]}
+        exp_n = {'f': ref['f'], 'g': [[nm, ref['g'][i]] for nm, i in zip(own_names, idx)],
+                 'h': [[a, [[b, ref['h'][i][j]] for b, j in zip(own_names, idx)]] for a, i in zip(own_names, idx)],
+                 'b': [[a, [[b, ref['b'][i][j]] for b, j in zip(own_names, idx)]] for a, i in zip(own_names, idx)]}
+        for slot, tol in (('f', 1e-10), ('g', 1e-9), ('h', 1e-8), ('b', 1e-8)):
+            if not struct_close(op[slot], exp_p[slot], tol) or not struct_close(on[slot], exp_n[slot], tol):
+                res.violate(f'prepare_ids=True on a formula that belongs to a shared id manager: slot {slot} does not pair the entries with the sorted own parameters of the formula', small,
+                            {'positional': op[slot], 'named': on[slot]}, exp_n[slot], where=WN)
+                break
+        back = _plain(gvd(x), False)
+        if e.id_manager is not idm or repr(back) != repr(ref):
+            res.violate('after an evaluation with prepare_ids=True the formula does not report its derivatives over the shared list any more (id manager not restored)', small,
+                        back['g'], ref['g'], where='get_value_and_derivatives')
+    except Exception as ex:  # noqa: BLE001
+        res.violate(f'prepare_ids=True on a formula that belongs to a shared id manager fails: {core.exc_kind(ex)}: {ex}'[:300], small, str(ex)[:200], 'f, g, H, BHHH',
+                    where='get_value_and_derivatives')
+    # ---- successive calls of get_value_and_derivatives
+    alias_probe(res, small, 'get_value_and_derivatives', lambda p: gvd(p), x, x2, lambda o: _plain(o, False))
+    alias_probe(res, small, 'get_value_and_derivatives(aggregation=False)', lambda p: gvd(p, agg=False), x, x2, lambda o: _plain(o, True))
+    # ---- BIOGEME built from a dict of formulas
+    if B is not None:
+        try:
+            with core.scratch():
+                if list(B.free_beta_names) != names:
+                    res.violate('BIOGEME.free_beta_names is not the reported list of the id manager', small, list(B.free_beta_names), names, where='BIOGEME.calculate_likelihood_and_derivatives')
+                call = lambda p, sc=False: B.calculate_likelihood_and_derivatives(np.array(p, dtype=float), scaled=sc, hessian=True, bhhh=True)  # noqa: E731
+                o1, _ = alias_probe(res, small, 'BIOGEME.calculate_likelihood_and_derivatives', call, x, x2, lambda o: _plain(o, False))
+                os1, _ = alias_probe(res, small, 'BIOGEME.calculate_likelihood_and_derivatives(scaled=True)', lambda p: call(p, True), x, x2, lambda o: _plain(o, False))
+                # the log likelihood is formula A
+                refA = ref if target == 0 else _plain(eA.get_value_and_derivatives(betas=pt, database=db, aggregation=True, prepare_ids=False), False)
+                gotb = _plain(o1, False)
+                N = float(len(case['rows']))
+                gots = _plain(os1, False)
+                for slot, tol in (('f', 1e-10), ('g', 1e-9), ('h', 1e-8), ('b', 1e-8)):
+                    if not slot_close(gotb[slot], refA[slot], tol):
+                        res.violate(f'BIOGEME (dict of formulas).calculate_likelihood_and_derivatives: slot {slot} is not the one of the log likelihood formula over the reported names', small,
+                                    gotb[slot], refA[slot], where='BIOGEME.calculate_likelihood_and_derivatives')
+                        break
+                    # scaled=True reports value / N: gradient and Hessian must be the derivatives of THAT value (the scaling convention of the BHHH matrix is not part of the property)
+                    if slot == 'b':
+                        continue
+                    scaled_back = (gots[slot] * N) if slot == 'f' else (np.array(gots[slot]) * N).tolist()
+                    if not slot_close(scaled_back, refA[slot], 1e-8):
+                        res.violate(f'BIOGEME.calculate_likelihood_and_derivatives(scaled=True): the value is divided by the sample size but slot {slot} is not (it is not the derivative of the reported value)',
+                                    small, gots[slot], refA[slot], where='BIOGEME.calculate_likelihood_and_derivatives')
+                        break
+                # likelihood_finite_difference_hessian: column i = (g(x + s_i e_i) - g(x)) / s_i with the documented step, over the reported names
+                hfd = [[float(v) for v in r] for r in B.likelihood_finite_difference_hessian(np.array(x))]
+                gA = lambda p: [float(v) for v in eA.get_value_and_derivatives(betas=dict(zip(names, p)), database=db, gradient=True, hessian=False, bhhh=False, aggregation=True, prepare_ids=False).gradient]  # noqa: E731
+                g0 = gA(x)
+                exp_h = [[0.0] * n for _ in range(n)]
+                for i in range(n):
+                    s_i = 1e-7 * x[i] if abs(x[i]) >= 1 else (1e-7 if x[i] >= 0 else -1e-7)
+                    p = list(x)
+                    p[i] += s_i
+                    gp = gA(p)
+                    for r in range(n):
+                        exp_h[r][i] = (gp[r] - g0[r]) / s_i
+                sc = max([1.0] + [abs(v) for v in g0])
+                if all(math.isfinite(v) for v in g0) and not mat_close(hfd, exp_h, 1e-5 * sc):
+                    res.violate('BIOGEME.likelihood_finite_difference_hessian: entry (r, i) is not the difference quotient of gradient entry r along the i-th reported name with the documented step',
+                                small, hfd, exp_h, where='tools.derivatives')
+        except Exception as ex:  # noqa: BLE001
+            res.violate(f'BIOGEME built from a dict of formulas: derivatives cannot be computed: {core.exc_kind(ex)}: {ex}'[:300], small, str(ex)[:200], 'f, g, H, BHHH',
+                        where='BIOGEME.calculate_likelihood_and_derivatives')
+    # ---- the Lean model: IdM.prepare over the declarations of ALL formulas, Diff on the target, DerivOut packaging and naming
+    bv = G.beta_values(case)
+    try:
+        trees = [to_tree(case, root_k, row, bv) for row in G.rows_of(case)]
+    except G.Reject:
+        res.tally('not_in_fragment')
+        return
+    envs = [{'par': [[k, f2b(v)] for k, v in bv.items()], 'var': [[k, f2b(v)] for k, v in row.items()]} for row in G.rows_of(case)]
+    modes = ctx.rng.sample(SHARED_MODES, n_modes) if n_modes < len(SHARED_MODES) else list(SHARED_MODES)
+    real_modes = []
+    for (g, h, b), agg, named in modes:
+        try:
+            o = gvd(x, g=g, h=h, b=b, agg=agg, named=named)
+            st = _named_struct(o, not agg) if named else _plain(o, not agg)
+            kind = ('named' if named else '') + ('Agg' if agg else 'Dis')
+            st['kind'] = kind[0].lower() + kind[1:]
+            real_modes.append(st)
+        except Exception as ex:  # noqa: BLE001
+            real_modes.append({'error': core.exc_kind(ex)})
+
+    def cb(ans):
+        if 'refused' in ans:
+            res.diverge('IdM.prepare refuses the declarations of formulas that the library lets share an id manager', small, ans, names, where='IdManager.prepare')
+            return
+        if ans['names'] != names or ans['mapping'] != [[nm, k] for k, nm in enumerate(names)]:
+            res.diverge('names / name->index mapping of a shared id manager (IdM.prepare, DerivOut.indices vs real)', small, [ans['names'], ans['mapping']],
+                        [names, list(idm.free_betas.indices.items())], where='IdManager.prepare')
+        if list(idm.free_betas.indices.items()) != [(nm, k) for k, nm in enumerate(names)]:
+            res.violate('free_betas.indices does not map the k-th reported name to k', small, list(idm.free_betas.indices.items()), names, where='IdManager.prepare')
+        for mode, real, mod in zip(modes, real_modes, ans['outs']):
+            m = _model_struct(mod)
+            (g, h, b), agg, named = mode
+            md = {'gradient': g, 'hessian': h, 'bhhh': b, 'aggregation': agg, 'named_results': named}
+            if 'error' in m or 'error' in real:
+                if ('error' in m) != ('error' in real) or m.get('error') != real.get('error'):
+                    res.diverge('refusal of a combination of flags (DerivOut.getValueAndDerivatives vs real)', {**small, 'mode': md}, m, real, where='calculator packaging')
+                continue
+            if m['kind'] != real['kind']:
+                res.diverge('type of the output (DerivOut.getValueAndDerivatives vs real)', {**small, 'mode': md}, m['kind'], real['kind'], where='calculator packaging')
+                continue
+            for slot, tol, w in (('f', 1e-9, W), ('g', TOL_G, W), ('h', TOL_H, WH), ('b', TOL_H, W)):
+                if (m[slot] is None) != (real[slot] is None):
+                    res.diverge(f'slot {slot} returned or not (DerivOut.calcPackage vs real)', {**small, 'mode': md}, m[slot] is not None, real[slot] is not None, where='calculator packaging')
+                elif not struct_close(m[slot], real[slot], tol):
+                    res.diverge(f'slot {slot} of a formula under a shared id manager (DerivOut/Diff vs real, names and values)', {**small, 'mode': md}, m[slot], real[slot],
+                                where=(WN if named and w == W else w))
+
+    ctx.batch.add({'op': 'gvd', 'decls': [[nn['name'], bool(nn.get('fixed'))] for nn in case['nodes'] if nn['k'] == 'beta'], 'cols': list(case['columns']),
+                   'rows': [{'expr': t, 'env': en} for t, en in zip(trees, envs)],
+                   'modes': [{'gradient': g, 'hessian': h, 'bhhh': b, 'aggregation': agg, 'database': True, 'named': named} for (g, h, b), agg, named in modes]}, cb)
+    # create_function / create_objective_function against DerivOut.myFunction / objF / objFG / objFGH (one tree for all rows)
+    if obj_out is not None and all(t == trees[0] for t in trees):
+        res.tally('objective: modelled')
+
+        def cbo(ans, obj_out=obj_out, cf=cf, wrong=wrong):
+            def fl(v):
+                return None if v is None else ([fl(t) for t in v] if isinstance(v, list) else b2f(v))
+
+            mod = {'f': fl(ans['f']), 'fg': {k: fl(v) for k, v in ans['fg'].items()}, 'fgh': {k: fl(v) for k, v in ans['fgh'].items()}}
+            ok = (core.close(mod['f'], obj_out['f'], rel=1e-9) and struct_close(mod['fg']['g'], obj_out['fg']['g'], TOL_G) and mod['fg']['h'] is None and obj_out['fg']['h'] is None
+                  and struct_close(mod['fgh']['g'], obj_out['fgh']['g'], TOL_G))
+            if not ok:
+                res.diverge('create_objective_function _f/_f_g/_f_g_h (DerivOut.objF/objFG/objFGH vs real)', small, mod, obj_out, where=W)
+            elif not struct_close(mod['fgh']['h'], obj_out['fgh']['h'], TOL_H):
+                res.diverge('create_objective_function _f_g_h Hessian (DerivOut.objFGH vs real)', small, mod['fgh']['h'], obj_out['fgh']['h'], where=WH)
+            mfn = _model_struct(ans['fn'])
+            for slot, tol, w in (('f', 1e-9, W), ('g', TOL_G, WN), ('h', TOL_H, WH), ('b', TOL_H, WN)):
+                if 'error' in mfn or not struct_close(mfn[slot], cf[slot], tol):
+                    res.diverge(f'create_function slot {slot} (DerivOut.myFunction vs real)', small, mfn.get(slot, mfn), cf[slot], where=w)
+                    break
+            if wrong is not None and ('error' in ans['bad']) != (wrong != 'accepted'):
+                res.diverge('create_function with a vector of another length (DerivOut.myFunction vs real)', small, ans['bad'], wrong, where='create_function')
+
+        ctx.batch.add({'op': 'objective', 'names': names, 'expr': trees[0], 'envs': envs, 'x': [f2b(v) for v in x], 'gradient': True, 'hessian': True, 'bhhh': True}, cbo)
+    else:
+        res.tally('objective: row-dependent expansion (oracle only)')
+
+
+# shared-numbering corpus: the log likelihood of a binary logit + a simulation formula with a parameter that sorts first
+_SHARED_LOGIT = {'nodes': [{'k': 'beta', 'name': 'B_TIME', 'v': 0.0, 'fixed': False}, {'k': 'beta', 'name': 'ASC', 'v': 0.0, 'fixed': False}, {'k': 'beta', 'name': 'B_COST', 'v': 0.0, 'fixed': False},
+                           {'k': 'var', 'name': 'x1'}, {'k': 'var', 'name': 'x2'}, {'k': 'times', 'c': [0, 3]}, {'k': 'times', 'c': [2, 4]}, {'k': 'plus', 'c': [1, 5]}, {'k': 'plus', 'c': [7, 6]},
+                           {'k': 'neg', 'c': [8]}, {'k': 'exp', 'c': [9]}, {'k': 'num', 'v': 1.0, 'raw': False}, {'k': 'plus', 'c': [11, 10]}, {'k': 'log', 'c': [12]}, {'k': 'neg', 'c': [13]},
+                           {'k': 'beta', 'name': 'AA_SCALE', 'v': 1.0, 'fixed': False}, {'k': 'times', 'c': [15, 0]}, {'k': 'times', 'c': [16, 3]},
+                           {'k': 'beta', 'name': 'zz', 'v': 0.5, 'fixed': False}, {'k': 'plus', 'c': [17, 18]}],
+                 'roots': [14, 19], 'columns': ['x1', 'x2', 'cost'], 'rows': [[1.0, 0.5, 3.0], [2.0, -1.0, 1.0], [3.0, 2.0, 2.0]],
+                 'dict': {'AA_SCALE': 1.25, 'ASC': 0.5, 'B_COST': -1.25, 'B_TIME': -0.25, 'zz': 0.75}}
+CORPUS_SHARED = [(_SHARED_LOGIT, 'IdManager', 0), (_SHARED_LOGIT, 'BIOGEME dict of formulas', 0), (_SHARED_LOGIT, 'IdManager', 1), (_SHARED_LOGIT, 'BIOGEME dict of formulas', 1)]
+
+
+def shared_stream(ctx, res, rng, n):
+    for i in range(n):
+        case = gen_shared(rng)
+        context = 'IdManager' if i % 2 == 0 else 'BIOGEME dict of formulas'
+        shared_check(ctx, res, case, context, 0 if i % 3 != 2 else 1, n_modes=4, fd=(i % 2 == 0) or not ctx.quick)
+        if too_many(ctx, res):
+            return
+
+
 MATCHERS = {'value_only_reuse': value_only_reuse, 'square_of_nonlinear': square_of_nonlinear, 'integrate_two_params': lambda case: 'Integrate' in str((case or {}).get('formula', '')),
             'repeated_linutil_beta': repeated_linutil_beta}
 
@@ -1280,12 +1781,15 @@ def check(ctx) -> Result:
         clash_check(ctx, res, c, variant)
     for c, x in CORPUS_FD:
         fdtool_check(ctx, res, c, x, with_biogeme=True, logg=(x[0] == 0.25))
+    for c, context, target in CORPUS_SHARED:
+        shared_check(ctx, res, c, context, target, n_modes=len(SHARED_MODES))
     for i in range(ctx.n(150, 2500)):
         combos = all_combos() if (i % 5 == 0) else rng.sample(all_combos(), 3)
         check_case(ctx, res, gen_smooth(rng), fd=(i % 3 == 0) or not ctx.quick, combos=combos)
         if too_many(ctx, res):
             break
     new_streams(ctx, res, rng, ctx.n(60, 600), ctx.n(25, 250), ctx.n(40, 400), fd_every=2 if ctx.quick else 1)
+    shared_stream(ctx, res, rng, ctx.n(40, 500))
     flags_check(ctx, res)
     integrate_check(ctx, res)
     reuse_check(ctx, res)
@@ -1315,12 +1819,16 @@ def search(ctx, res, broken):
         clash_check(ctx, r2, c, variant)
     for c, x in CORPUS_FD:
         fdtool_check(ctx, r2, c, x, with_biogeme=True)
+    for c, context, target in CORPUS_SHARED:
+        shared_check(ctx, r2, c, context, target, n_modes=len(SHARED_MODES))
     new = lambda: [v for v in r2.violations if not _listed(ctx, v)]  # noqa: E731
     if not new():
         for _ in range(200):
             check_case(ctx, r2, gen_smooth(rng), fd=True)
             if new():
                 break
+    if not new():
+        shared_stream(ctx, r2, rng, 60)
     if not new():
         new_streams(ctx, r2, rng, 100, 40, 80)
     ctx.batch.items.clear()
@@ -1340,6 +1848,9 @@ def replay(ctx, obj):
     stream = case.get('stream', 'db')
     if c['nodes'] == REUSE_CASE['nodes']:
         reuse_check(ctx, r)
+    elif stream == 'shared':
+        c['roots'] = list(case['roots'])
+        shared_check(ctx, r, c, case.get('context', 'IdManager'), int(case.get('target', 0)), n_modes=len(SHARED_MODES))
     elif stream == 'nodb':
         nodb_check(ctx, r, c)
     elif stream == 'clash':
